@@ -11,7 +11,7 @@ from ..kinds import node_containing
 from ..lexmodel import LexModel
 from ..model import AnalysisError, attr_chain, is_self_attr, norm, short, walk_local
 from ..pmodel import LEX_ALL, ParserModel
-from ..report import Ctx
+from ..report import Ctx, SubCtx
 from ..rx import Auto
 from ..tokbuf import FillModel
 
@@ -349,6 +349,8 @@ def run(ctx: Ctx) -> None:
             ctx.ob("R9.8", f"lexer:TokenStream.{acc}|decides on the token's {want_attr} only", bad is None,
                    msg=f"`{short(bad, 50) if bad is not None else ''}`: {acc} also accepts a token by its {'text' if want_attr == 'type' else 'type'}: an identifier spelled like a token type (a parameter called ELLIPSIS, a name DBL_COLON) is taken for that token", node=bad or afn, mod=lex, nontrivial=False)
 
+    if isinstance(ctx, SubCtx) and not (set(ctx._map) & {"R9.6", "R9.7"}):
+        return  # evaluated for another property that shares only rules above (the buffer-fill interpretation is skipped)
     # ---------------------------------------------------------------- R9.6
     ctx.rule("R9.6", "line splice: a (backslash, NEWLINE) pair is removed wherever it falls in the buffer and nothing else is; the line goes on after it", minimum=2)
     # decided by interpreting the buffer fill over every short script of raw tokens, started with an empty buffer and with
